@@ -737,6 +737,8 @@ func (w *l2World) genOp(spec *modelL2, bc blockCtx) ([]sdk.Msg, string, string) 
 		sender := w.executors[w.r.Intn(len(w.executors))]
 		if w.r.Chance(1, 5) {
 			sender = w.pickUser()
+		} else if w.r.Chance(1, 8) {
+			sender = spec.Params.Admin // the admin is not an executor unless listed
 		}
 		bi := w.bridgeInfo("")
 		if spec.Bridge != nil {
@@ -1384,7 +1386,11 @@ func (w *l2World) registerPlan(bc blockCtx) *core.Violation {
 	if strings.HasPrefix(opLbl, "planop") {
 		opStr = sdk.ValAddress(node.Addr("valoper/" + opLbl)).String()
 	}
-	reg := node.PlanReg{ProposalID: 1 + uint64(r.Intn(100)), Height: h, NextValidator: opStr, Moniker: "plan-" + opLbl, ConsPubKeyJSON: string(pkJSON), Info: "sim", NextExecutors: execs}
+	pid := 1 + uint64(r.Intn(100))
+	if len(w.plans) > 0 && r.Chance(1, 6) {
+		pid = w.plans[r.Intn(len(w.plans))].ProposalID // one L1 proposal that schedules a change at several heights
+	}
+	reg := node.PlanReg{ProposalID: pid, Height: h, NextValidator: opStr, Moniker: "plan-" + opLbl, ConsPubKeyJSON: string(pkJSON), Info: "sim", NextExecutors: execs}
 	bad := ""
 	switch r.Weighted([]int{10, 1, 1, 1, 1, 1}) {
 	case 1:
